@@ -55,6 +55,8 @@ type Node struct {
 	bad         func(hs []*wire.BlockHeader) []*wire.BlockHeader // misbehaviour applied to the next reply
 	out         chan wire.Message
 	lastReply       []*wire.BlockHeader
+	lastHeadersMsg  []*wire.BlockHeader // last headers message the service sent us
+	headersMsgs     int
 	allRequests     []*wire.MsgGetHeaders
 	checkedRequests int
 	getHeadersSeen int
@@ -178,6 +180,8 @@ func (n *Node) reader(conn net.Conn) {
 		case *wire.MsgHeaders:
 			n.mu.Lock()
 			n.gotHeaders = append(n.gotHeaders, len(m.Headers))
+			n.lastHeadersMsg = m.Headers
+			n.headersMsgs++
 			n.mu.Unlock()
 		default:
 			// getaddr, addr, protoconf, ...: not part of the header protocol
@@ -314,4 +318,22 @@ func (n *Node) pendingCount() int {
 		return 0
 	}
 	return len(n.pending)
+}
+
+// Ask sends a getheaders request to the service (the node as the asking side).
+func (n *Node) Ask(locator []chainhash.Hash, stop chainhash.Hash) {
+	g := wire.NewMsgGetHeaders()
+	g.HashStop = stop
+	for i := range locator {
+		h := locator[i]
+		_ = g.AddBlockLocatorHash(&h)
+	}
+	n.write(g)
+}
+
+// Answer returns how many headers messages arrived so far and the last one.
+func (n *Node) Answer() (int, []*wire.BlockHeader) {
+	n.mu.Lock()
+	defer n.mu.Unlock()
+	return n.headersMsgs, n.lastHeadersMsg
 }
